@@ -90,28 +90,12 @@ theorem fasta_lines (S : List SeqRec) (wf : AlnWF S) (bio L : Nat) (base : Bytes
 /-- a written FASTA file is recognised as FASTA -/
 theorem sniff_written_fasta (S : List SeqRec) (wf : AlnWF S) (bio L : Nat) (base : Bytes) :
     detectFormat (splitLines (writeFasta (finalise S bio L base))) = 1 := by
-  obtain ⟨hl, hpl⟩ := fasta_lines S wf bio L base
+  obtain ⟨hl, _⟩ := fasta_lines S wf bio L base
   rw [hl]
-  have hno : ∀ l ∈ faLines (finalise S bio L base).alnlen (finalise S bio L base).rows,
-      countHints msfHints l = 0 ∧ countHints cluHints l = 0 := by
-    intro l hm
-    apply noHints <;> intro hb <;> rcases hpl l hm _ hb with h | h
-    · exact absurd h (by decide)
-    · exact (plain_ne _ h).2.2.2.1 rfl
-    · exact absurd h (by decide)
-    · exact (plain_ne _ h).2.2.1 rfl
-    · exact absurd h (by decide)
-    · exact (plain_ne _ h).2.2.2.2.2 rfl
-  apply detectFormat_fasta
-  · rw [hints_1]
-    match hS : S, wf.ne with
-    | s :: rest, _ =>
-      simp only [finalise, faLines, map_cons, flatMap_cons, cons_append, take_succ_cons]
-      exact sum_map_pos _ _ _ (by simp [fastaHint])
-  · rw [hints_2]
-    exact sum_map_zero _ _ (fun l hm => (hno l (mem_of_mem_take hm)).1)
-  · rw [hints_3]
-    exact sum_map_zero _ _ (fun l hm => (hno l (mem_of_mem_take hm)).2)
+  match hS : S, wf.ne with
+  | s :: rest, _ =>
+    simp only [finalise, faLines, map_cons, flatMap_cons, cons_append]
+    exact detectFormat_head _ _ _ (lineKind_fasta _ (by simp [fastaHint]))
 
 /-- **FASTA round trip through `kalign_read_input`**: format sniffed, sequences, alphabet and alignment status -/
 theorem fasta_roundtrip_input (S : List SeqRec) (wf : AlnWF S) (bio L : Nat) (base : Bytes) :
@@ -217,9 +201,9 @@ theorem sniff_written_clu (S : List SeqRec) (wf : AlnWF S) (bio L : Nat) (base v
     (hver : ∀ b ∈ ver, isCntrl b = false) :
     detectFormat (splitLines (writeClu ver (finalise S bio L base))) = 3 := by
   rw [clu_lines S wf bio L base ver hver]
-  apply detectFormat_clu
-  rw [hints_3, take_succ_cons]
-  apply sum_map_pos
+  apply detectFormat_head
+  apply lineKind_clu
+  · simp [fastaHint, cluTitle, ascii]
   have h : hasSub (ascii "multiple sequence alignment") (cluTitle ver) = true := by
     have := hasSub_append (ascii "multiple sequence alignment") (ascii "Kalign (" ++ ver ++ ascii ") ") []
     have e : ascii "Kalign (" ++ ver ++ ascii ") " ++ ascii "multiple sequence alignment" ++ [] = cluTitle ver := by
@@ -308,44 +292,23 @@ theorem msf_roundtrip (S : List SeqRec) (wf : AlnWF S) (bio L : Nat) (base date 
       exact rowsC_blocks _ (finalise_inBounds' S wf bio L base) r0 h0)]
   rw [scan_finalise S wf]
 
-/-- a written MSF file is recognised as MSF (and not as Clustal, which has precedence) -/
+theorem msfMagic_fastaHint (A : Alignment) : fastaHint (msfMagic A) = 0 := by
+  unfold msfMagic
+  split
+  · decide
+  · split <;> decide
+
+/-- a written MSF file is recognised as MSF (its first line is the `!!AA/NA_MULTIPLE_ALIGNMENT` line, which carries no Clustal hint) -/
 theorem sniff_written_msf (S : List SeqRec) (wf : AlnWF S) (bio L : Nat) (base date : Bytes) (h : HdrOK base date)
     (hd : asaFrom 0 date = false) :
     detectFormat (splitLines (writeMsf date (finalise S bio L base))) = 2 := by
   rw [msf_lines S wf bio L base date h]
-  apply detectFormat_msf
-  · rw [hints_2]
-    simp only [msfHeaderLines, cons_append, take_succ_cons]
-    exact sum_map_pos _ _ _ (msfMagic_asa _).2
-  · rw [hints_3]
-    apply sum_map_zero
-    intro l hl
-    apply noCluHints
-    have hl := mem_of_mem_take hl
-    rcases mem_append.mp hl with hl | hl
-    · simp only [msfHeaderLines, cons_append, nil_append, mem_cons, mem_append, mem_map] at hl
-      rcases hl with rfl | rfl | rfl | rfl | ⟨r, hr, rfl⟩ | rfl | rfl | rfl | hl
-      · exact (msfMagic_asa _).1
-      · rfl
-      · exact msfInfoLine_asa date _ h.base hd
-      · rfl
-      · exact msfNameLine_asa _ _ r (plain_no_blank (finalise_name_plain S wf bio L base r hr))
-      · rfl
-      · decide
-      · rfl
-      · simp at hl
-    · refine majorLines_asa _ _ _ ?_ l hl
-      intro r hr
-      have hnm := finalise_nmOK S wf bio L base r hr
-      simp only [rowsC, mem_map] at hr
-      obtain ⟨r0, h0, rfl⟩ := hr
-      refine ⟨hnm, plain_no_blank (finalise_name_plain S wf bio L base r0 h0), ?_⟩
-      intro c hc
-      apply plain_no_blank
-      intro b hb
-      have : b ∈ (blocks (r0.row.take (finalise S bio L base).alnlen)).flatten := mem_flatten.mpr ⟨c, hc, hb⟩
-      rw [blocks_flatten] at this
-      exact finalise_row_plain S wf bio L base r0 h0 b (mem_of_mem_take this)
+  simp only [msfHeaderLines, cons_append]
+  apply detectFormat_head
+  apply lineKind_msf
+  · exact msfMagic_fastaHint _
+  · exact noCluHints _ (msfMagic_asa _).1
+  · exact (msfMagic_asa _).2
 
 /-- **MSF round trip through `kalign_read_input`** -/
 theorem msf_roundtrip_input (S : List SeqRec) (wf : AlnWF S) (bio L : Nat) (base date : Bytes) (h : HdrOK base date)
